@@ -595,7 +595,131 @@ def run_xml_comp(case):
     S.sample(case)
 
 
+# ---------------------------------------------------------------------------------------
+# re-export after the exported objects were edited in place
+# ---------------------------------------------------------------------------------------
+RERENDER_BARS = [
+    [[[["C", 4]], "4"], [[["E", 4], ["G", 4]], "4"], [None, "4"], [[["A", 3]], "8"], [[["B", 3]], "8"]],
+    [[[["D", 5]], "8*3:2"], [[["F", 5]], "8*3:2"], [[["A", 5], ["C", 6]], "8*3:2"], [[["Bb", 2]], "2."]],
+    [[[["F#", 4], ["A", 4], ["C#", 5]], "1"]],
+]
+RERENDER_EDITS = [["transpose", "3", True], ["transpose", "b2", False], ["augment"], ["diminish"], ["setitem", 0, [["G", 2]]],
+                  ["setitem", 1, [["Eb", 6], ["Bb", 6]]], ["note_octave_up", 0], ["note_set", 1, "F#", 7], ["deepcopy_then", ["augment"]]]
+RERENDER_VIAS = ["ly_bar", "ly_track", "ly_composition", "xml_bar", "xml_composition"]
+
+
+def _labels_of(spec):
+    return [e[1] for e in spec["entries"]]
+
+
+def _expected_of(bar, labels):
+    return [expected_entry(e[2], lab) for e, lab in zip(bar.bar, labels)]
+
+
+def _apply_rerender_edit(bar, edit):
+    how = edit[0]
+    if how == "transpose":
+        bar.transpose(edit[1], edit[2])
+    elif how == "augment":
+        bar.augment()
+    elif how == "diminish":
+        bar.diminish()
+    elif how == "setitem":
+        i = edit[1] % len(bar.bar)
+        if bar.bar[i][2] is None:
+            i = 0
+        bar[i] = NoteContainer([Note(n, o) for n, o in edit[2]])
+    elif how == "note_octave_up":
+        bar.bar[edit[1] % len(bar.bar)][2].notes[0].octave_up()
+    elif how == "note_set":
+        i = edit[1] % len(bar.bar)
+        if bar.bar[i][2] is None:
+            i = 0
+        bar.bar[i][2].notes[-1].set_note(edit[2], edit[3])
+    else:
+        raise engine.HarnessError("unknown edit %r" % (edit,))
+
+
+def _export_and_compare(S, site, via, bar, key, meter, labels):
+    exp = _expected_of(bar, labels)
+    if via == "ly_bar":
+        text = export(S, site, LY.from_Bar, bar, True, True)
+        tree = None if text is None else ly_parse(S, site, text, lily.parse_music)
+        if tree is not None:
+            compare_entries(S, site, exp, lily.read_bar(tree)["entries"])
+    elif via in ("ly_track", "ly_composition"):
+        t = Track()
+        t.add_bar(bar)
+        if via == "ly_track":
+            text = export(S, site, LY.from_Track, t)
+            tree = None if text is None else ly_parse(S, site, text, lily.parse_music)
+            bars = None
+            if tree is not None:
+                try:
+                    bars = lily.read_track(tree)
+                except lily.LilyError as e:
+                    S.problem(site + ": structure", "a group of bar groups", "%s in %r" % (e, text[:200]))
+        else:
+            c = Composition()
+            c.add_track(t)
+            text = export(S, site, LY.from_Composition, c)
+            bars = None
+            if text is not None:
+                try:
+                    doc = lily.read_composition(text)
+                except lily.LilyError as e:
+                    S.problem(site + ": output is outside the LilyPond subset", "decodable text", "%s in %r" % (e, text[:200]))
+                    doc = None
+                if doc is not None:
+                    if len(doc["tracks"]) != 1:
+                        S.problem(site + ": number of tracks", 1, len(doc["tracks"]))
+                    else:
+                        bars = doc["tracks"][0]
+        if bars is not None:
+            if len(bars) != 1:
+                S.problem(site + ": number of bars", 1, len(bars))
+            else:
+                compare_entries(S, site, exp, bars[0]["entries"])
+    elif via == "xml_bar":
+        text = export(S, site, MX.from_Bar, bar)
+        if text is not None:
+            check_score(S, site, text, Composition(), [{"name": Track().name, "instrument": None, "bars": [{"key": key, "meter": meter, "entries": exp}]}])
+    elif via == "xml_composition":
+        t = Track()
+        t.add_bar(bar)
+        c = Composition()
+        c.add_track(t)
+        text = export(S, site, MX.from_Composition, c)
+        if text is not None:
+            check_score(S, site, text, c, [{"name": t.name, "instrument": None, "bars": [{"key": key, "meter": meter, "entries": exp}]}])
+    else:
+        raise engine.HarnessError("unknown via %r" % via)
+    S.trans(1)
+
+
+def run_rerender(case):
+    """case = [bar index, via, edit]: export the bar, edit it in place, export it again: the second text must decode
+    to the edited music (and the first to the original)."""
+    import copy
+    S = engine.S
+    bi, via, edit = case
+    spec = {"key": "D", "meter": [4, 4], "entries": RERENDER_BARS[bi]}
+    bar, _ = build_bar(spec)
+    if bar is None:
+        raise engine.HarnessError("rerender bar not reachable")
+    labels = _labels_of(spec)
+    _export_and_compare(S, "%s, first export" % via, via, bar, "D", [4, 4], labels)
+    if edit[0] == "deepcopy_then":
+        bar = copy.deepcopy(bar)
+        edit = edit[1]
+    _apply_rerender_edit(bar, edit)
+    _export_and_compare(S, "%s, exported again after %r on the exported bar" % (via, edit), via, bar, "D", [4, 4], labels)
+    S.count("rerender_cases")
+    S.outcome((bi, via, edit[0]))
+
+
 CLAUSES = {
+    "rerender": run_rerender,
     "ly_note": run_ly_note,
     "ly_container": run_ly_nc,
     "ly_bar": run_ly_bar,
@@ -924,6 +1048,10 @@ def explore(ctx):
                 shards += [("pairs", (f1, f2, s2, a)) for a in s2]
         ctx.bound("ly_header_chars", LY_CHARS)
         ctx.product("ly_composition", shards, gen_ly_comp)
+
+    if ctx.want("rerender"):
+        ctx.bound("rerender", {"bars": len(RERENDER_BARS), "edits": RERENDER_EDITS, "exports": RERENDER_VIAS})
+        ctx.product("rerender", list(range(len(RERENDER_BARS))), lambda bi: ([bi, via, e] for via in RERENDER_VIAS for e in RERENDER_EDITS))
 
     # ---- MusicXML ------------------------------------------------------------------
     if ctx.want("xml_bar"):
